@@ -1,6 +1,7 @@
 import ChythonModel.Py.Wire
 import ChythonModel.Model.Pack
 import ChythonModel.Model.PackWF
+import ChythonModel.Model.PackStereo
 /-!
 Line-protocol driver for C10 (requests and responses are flat int lists, see `harness/props/c10.py`).
 
@@ -14,11 +15,17 @@ Line-protocol driver for C10 (requests and responses are flat int lists, see `ha
   rpack <nr> <ng> <np> <mol>*       -> ok <bytes>
   runpack <bytes>                   -> ok <nr> <decoded>* <ng> <decoded>* <np> <decoded>*
   rpacklen <bytes>                  -> ok <nr> a* <ng> a* <np> a*
+  perceive <mol>                    -> ok <perceived>        | err key|set-order|fuel
+                                       (`cumulenes`, `stereogenic_cumulenes`, `_stereo_cis_trans_terminals`,
+                                        `_stereo_cis_trans_centers`, `_stereo_allenes_terminals` of the model)
+  phyp <mol>                        -> ok t k d   (terminals of <mol> = perceived terminals; `marksOKb`; `keysDisjointb`)
   f16 <neg> <m> <e>                 -> ok <bits>
   f16d <bits>                       -> ok <neg> <m> <e>
 
  <mol>     = natoms {num z iso(0=None) stereo(-1|0|1) xneg xm xe yneg ym ye h(-1=None) charge radical deg {m order bstereo}*deg}*
              nterm {atom tn tm}*
+ <perceived> = ncum {len atom*len}* nsg {len atom*len n1 m1 n2(-1=None) m2(-1=None)}* nterm {k tn tm}* ncent {k p q}*
+             nall {c n m}*
  <decoded> = size natoms {num z iso(0=None) stereo xbits xneg xm xe ybits yneg ym ye h charge radical deg {m order bstereo}*deg}*
              nct {n m s}*
 -/
@@ -88,6 +95,16 @@ def showRes {α} (f : α → String) : Except PErr α → String
   | .ok a => "ok " ++ f a
   | .error e => "err " ++ e.toString
 
+def showPath (p : List Nat) : String := " ".intercalate (toString p.length :: p.map toString)
+
+def showTriples (l : List (Nat × Nat × Nat)) : String :=
+  " ".intercalate (toString l.length :: l.map fun (a, b, c) => s!"{a} {b} {c}")
+
+def showPerceived (p : Perceived) : String :=
+  " ".intercalate ([toString p.cumulenes.length] ++ p.cumulenes.map showPath ++ [toString p.stereogenic.length] ++
+    p.stereogenic.map (fun (path, n1, m1, n2, m2) => s!"{showPath path} {n1} {m1} {showOptNat n2} {showOptNat m2}") ++
+    [showTriples p.terminals, showTriples p.centers, showTriples p.allenes])
+
 def bytesOf (xs : List Int) : List Nat := xs.map Int.toNat
 
 def showRoles {α} (f : α → String) (r : RxnRoles α) : String :=
@@ -120,6 +137,23 @@ def handle (line : String) : String :=
             | _ => "err parse"
           | none => "err parse"
         | [] => "err parse"
+      | "perceive" =>
+        match parseMol xs with
+        | some (m, []) =>
+          match perceive m.atoms with
+          | .ok p => "ok " ++ showPerceived p
+          | .error e => "err " ++ e.toString
+        | _ => "err parse"
+      | "phyp" =>
+        match parseMol xs with
+        | some (m, []) =>
+          match perceive m.atoms with
+          | .ok p =>
+            let sp := p.stereogenic.map (·.1)
+            let b (x : Bool) := if x then "1" else "0"
+            s!"ok {b (m.terminals == p.terminals)} {b (marksOKb m.atoms sp)} {b (keysDisjointb sp)}"
+          | .error e => "err " ++ e.toString
+        | _ => "err parse"
       | "unpack" => showRes showDecoded (decode (bytesOf xs))
       | "unpacka" =>
         match xs with
